@@ -117,8 +117,15 @@ fn refuse(size: usize, old: usize, is_realloc: bool) -> bool {
         s.refused_kind.store(kind, Relaxed);
     }
     marker(kind, size, old);
+    if DIAG_PANIC.load(Relaxed) != 0 {
+        // diagnosis only (mode=one): unwind with a backtrace instead of aborting
+        DIAG_PANIC.store(0, Relaxed);
+        panic!("C15 diagnosis: allocation of {size} bytes refused (kind {kind}, old block {old} bytes)");
+    }
     true
 }
+
+pub static DIAG_PANIC: AtomicU64 = AtomicU64::new(0);
 
 #[inline]
 fn sys_null(p: *mut u8, size: usize) -> *mut u8 {
